@@ -95,6 +95,9 @@ def run(ctx):
         ctx.covered("nbody", meta["n"])
         ctx.covered("spin_half_final", any(f["j2"] % 2 for f in meta["finals"]))
         ctx.context = {"card": cards.short(card), "index": i}
+        # recorded declaration-order dependence (default bw_l / creators[0], see known_findings.json): class of the card
+        kf_order = cards.declaration_order_class(meta)
+        ctx.covered("declaration_order_class", kf_order.strip() or "none")
 
         def compare(monitor, cfg_b, events_a, events_b=None, base_cfg=base, label=None):
             events_b = events_a if events_b is None else events_b
@@ -126,7 +129,8 @@ def run(ctx):
             ctx.dev(monitor + " (|df|/tol)", worst, 1.0)
             ctx.check(monitor, worst <= 1.0, lambda: {"card": cards.short(card), "variant": label, "config_a": card["config"], "config_b": cfg_b,
                                                       "param_key": [ctx.seed, i], "event": k, "fa": fa[k], "fb": fb[k],
-                                                      "momenta": [p[k] for p in events_a], "worst_ratio": worst}, mechanism=monitor)
+                                                      "momenta": [p[k] for p in events_a], "worst_ratio": worst},
+                      mechanism=monitor + (kf_order if monitor in ("chain order permutation", "combined re-declaration") else ""))
             ctx.case(cards.card_digest_key(card) + (monitor, repr(label)), nontrivial=nontrivial)
 
         cfg = card["config"]
